@@ -245,13 +245,27 @@ def sliceFail (v : NodeValue) (cs : Forest) (s : Bytes) : Option String :=
   | .tableCell => if hasBarePipe 0 s then some "cell" else none
   | _ => none
 
+/-- Does the byte offset `b` (exclusive end of a slice) stand at the end of a line's content, up to
+    trailing spaces and tabs? A block quote covers whole lines: its slice ends where a line ends. -/
+def atLineEnd (lt : List LineEnt) (src : Bytes) (b : Nat) : Bool :=
+  lt.any fun e => e.off ≤ b && b ≤ e.off + e.len && ((src.drop b).take (e.off + e.len - b)).all isSpTab
+
+/-- Clauses that need the surroundings of the slice, not only its bytes. -/
+def sliceEndFail (lt : List LineEnt) (src : Bytes) (v : NodeValue) (sp : Sp) : Option String :=
+  match v with
+  | .blockQuote =>
+    match spOffsets lt sp with
+    | some (_, b) => if atLineEnd lt src b then none else some "quote-end"
+    | none => none
+  | _ => none
+
 mutual
 /-- First failing C12 clause in document order.  A node whose position does not denote a slice of
     the source at all is C11's business and is skipped here. -/
 def sliceCheckT (lt : List LineEnt) (src : Bytes) : Tree → Option SpFail
   | .node v sp cs =>
     let here := match sliceLT lt src sp with
-      | some s => sliceFail v cs s
+      | some s => (sliceFail v cs s).orElse fun _ => sliceEndFail lt src v sp
       | none => none
     match here with
     | some c => some ⟨c, v.kind, sp⟩
